@@ -20,6 +20,7 @@ import (
 	"net"
 	"net/netip"
 	"os"
+	"runtime"
 	"sort"
 	"strings"
 	"sync"
@@ -29,6 +30,7 @@ import (
 
 	"github.com/AdguardTeam/AdGuardDNS/internal/dnsserver"
 	"github.com/AdguardTeam/AdGuardDNS/internal/dnsserver/forward"
+	dnsprom "github.com/AdguardTeam/AdGuardDNS/internal/dnsserver/prometheus"
 	"github.com/AdguardTeam/AdGuardDNS/verif/vkit"
 	"github.com/miekg/dns"
 )
@@ -639,9 +641,24 @@ type attempt struct {
 type listener struct {
 	mu  sync.Mutex
 	att []attempt
+	// prod: the production listener (the one internal/cmd wires into the
+	// handler), called through for a share of the schedules
+	prod forward.MetricsListener
 }
 
-func (l *listener) OnForwardRequest(_ context.Context, ups forward.Upstream, req, _ *dns.Msg, _ forward.Network, _ time.Time, _ error) {
+var prodListeners atomic.Int64
+
+// newProdListener returns a production forward metrics listener.  Its metrics
+// are registered with promauto on the default registry, so every instance gets
+// a namespace of its own.
+func newProdListener() forward.MetricsListener {
+	return dnsprom.NewForwardMetricsListener(fmt.Sprintf("c17_p%d_n%d", os.Getpid(), prodListeners.Add(1)), 8)
+}
+
+func (l *listener) OnForwardRequest(ctx context.Context, ups forward.Upstream, req, resp *dns.Msg, nw forward.Network, start time.Time, err error) {
+	if l.prod != nil && ups != nil {
+		l.prod.OnForwardRequest(ctx, ups, req, resp, nw, start, err)
+	}
 	a := attempt{}
 	if ups != nil {
 		a.Ups = ups.String()
@@ -654,7 +671,11 @@ func (l *listener) OnForwardRequest(_ context.Context, ups forward.Upstream, req
 	l.mu.Unlock()
 }
 
-func (l *listener) OnUpstreamStatusChanged(forward.Upstream, bool, bool) {}
+func (l *listener) OnUpstreamStatusChanged(ups forward.Upstream, isMain, isUp bool) {
+	if l.prod != nil {
+		l.prod.OnUpstreamStatusChanged(ups, isMain, isUp)
+	}
+}
 
 func (l *listener) byName(name string) []attempt {
 	l.mu.Lock()
@@ -719,7 +740,8 @@ type caseSpec struct {
 	F         int        `json:"fallbacks"`
 	BackoffMs int64      `json:"backoff_ms"`
 	TimeoutMs int64      `json:"upstream_timeout_ms"`
-	Nets      []string   `json:"networks"` // "any" (UDP, TCP after truncation), "udp", "tcp": mains, then fallbacks
+	Prod      bool       `json:"production_metrics_listener,omitempty"` // prometheus.ForwardMetricsListener behind the recording listener
+	Nets      []string   `json:"networks"`                              // "any" (UDP, TCP after truncation), "udp", "tcp": mains, then fallbacks
 	Steps     []stepSpec `json:"steps"`
 }
 
@@ -759,6 +781,7 @@ func randCase(rng *rand.Rand, s string) string {
 func genCase(r *vkit.Run, stream string, idx, nSteps int) caseSpec {
 	rng := r.Rand(stream, idx)
 	cs := caseSpec{Stream: stream, Idx: idx, M: 1 + idx%3, F: (idx / 3) % 3, TimeoutMs: upsTimeout.Milliseconds()}
+	cs.Prod = cs.F > 0 && idx%2 == 1
 	bo := backoffs[rng.IntN(len(backoffs))]
 	cs.BackoffMs = bo.Milliseconds()
 	canWait := bo > 0 && bo < time.Minute
@@ -1694,6 +1717,9 @@ func runCase(r *vkit.Run, cs caseSpec) {
 	}()
 	backoff := time.Duration(cs.BackoffMs) * time.Millisecond
 	fx, err := newFixture(cs.M, cs.F, cs.Nets)
+	if err == nil && cs.Prod {
+		fx.lst.prod = newProdListener()
+	}
 	if err != nil {
 		r.Bucket("abandoned_no_port", 1)
 		return
@@ -1776,6 +1802,7 @@ func runCase(r *vkit.Run, cs caseSpec) {
 		}
 	}
 	ctxFailed := make([]bool, cs.M) // the last failed probe ended with its round's context
+	hcRound := 0                    // health-check rounds of this handler so far (production listener cases)
 	initDown := false               // F == 0: some main was failing during the initial health check
 	logPos := make([]int, cs.M+cs.F)
 	dead := make([]bool, cs.M+cs.F) // the handler holds a pooled TCP connection that the stub tore down
@@ -1965,6 +1992,7 @@ func runCase(r *vkit.Run, cs caseSpec) {
 		case "init":
 			c0 = time.Now()
 			fx.newHandler(tag, backoff, 2*time.Second)
+			hcRound++
 			c1 = time.Now()
 		case "refresh":
 			var ctx context.Context
@@ -1980,7 +2008,34 @@ func runCase(r *vkit.Run, cs caseSpec) {
 				ctx, cancel = context.WithTimeout(context.Background(), 2*time.Second)
 			}
 			c0 = time.Now()
-			callErr = fx.h.Refresh(ctx)
+			if !cs.Prod {
+				callErr = fx.h.Refresh(ctx)
+			} else {
+				// A health-check round is bounded by its probes' timeouts.  Run
+				// it under a watchdog; a round that is still blocked on a mutex
+				// after 100 probe timeouts never returns.
+				hcRound++
+				stuck, stack := false, ""
+				callErr, stuck, stack = refreshWatched(fx.h, ctx)
+				if stuck {
+					if tm != nil {
+						tm.Stop()
+					}
+					cancel()
+					if stack == "" {
+						r.Bucket("ambiguous_refresh_stuck_not_on_a_mutex", 1)
+						tags["ambiguous"] = true
+						return
+					}
+					fail("refresh:never-returns:blocked-on-mutex",
+						"a health-check round with the production metrics listener did not return within 100 probe timeouts and its goroutine is blocked acquiring a mutex: the active set is never updated again, traffic cannot return to the main upstreams",
+						si, map[string]any{"health_check_round_of_this_handler": hcRound, "goroutine": stack})
+					return
+				}
+				if hcRound >= 3 {
+					r.Bucket("refreshes_with_production_listener_third_or_later_round", 1)
+				}
+			}
 			c1 = time.Now()
 			if tm != nil {
 				tm.Stop()
@@ -2742,49 +2797,50 @@ func TestCheck(t *testing.T) {
 
 	// coverage gates: about a fifth of what the unchanged tree yields in the quick tier
 	for b, min := range map[string]int64{
-		"cases_completed":                                   150,
-		"queries_main_answer":                               300,
-		"queries_main_answer_case_insensitive":              60,
-		"queries_main_answer_tcp_after_truncation":          50,
-		"queries_main_servfail_relayed":                     30,
-		"queries_main_garbage_rejected":                     80,
-		"garbage_rejected:wrongid":                          15,
-		"garbage_rejected:wrongname":                        15,
-		"garbage_rejected:wrongtype":                        15,
-		"garbage_rejected:noquestion":                       10,
-		"garbage_rejected:short":                            10,
-		"garbage_rejected:wrongname+tc":                     10,
-		"garbage_rejected:wrongtype+tc":                     10,
-		"garbage_rejected:noquestion+tc":                    8,
-		"probe_failures_in_round_with_short_context":        6,
-		"probe_failures_in_round_with_cancel_context":       6,
-		"extra_message:cases_with_3_later_answers":          30,
-		"extra_message:cases_with_3_later_answers:tcp":      8,
-		"extra_message:cases_with_3_later_answers:udp":      3,
-		"flip_phase_refresh_rounds":                         2000,
-		"flip_phase_queries_answered_by_main":               2000,
-		"flip_phase_queries_answered_by_fallback":           2000,
-		"pool_bursts_judged":                                2,
-		"pool_burst_queries_answered_by_main":               2000,
-		"queries_silent_main_failover_judged":               100,
-		"queries_silent_main_answered_by_fallback":          60,
-		"backoff_held_after_context_ended_probe":            8,
-		"queries_failover_after_network_error":              70,
-		"queries_fallback_no_active_main":                   120,
-		"fallback_also_failed_error":                        40,
-		"queries_main_neterr_no_fallbacks":                  25,
-		"probe_failures":                                    100,
-		"backoff_skips_confirmed":                           100,
-		"reprobes_after_backoff_elapsed":                    60,
-		"recoveries":                                        30,
-		"queries_answered_by_recovered_main":                50,
-		"nofallback_main_used_after_failing_during_refresh": 100,
-		"concurrent_phase_queries":                          300,
-		"nofallback_init_down_then_every_main_served":       12,
-		"dead_pooled_tcp:main_failover":                     12,
-		"dead_pooled_tcp:fallback_error":                    8,
-		"dead_pooled_tcp:main_no_fallbacks_error":           8,
-		"queries_main_truncated_reply_relayed_udp_only":     8,
+		"cases_completed":                                         150,
+		"queries_main_answer":                                     300,
+		"queries_main_answer_case_insensitive":                    60,
+		"queries_main_answer_tcp_after_truncation":                50,
+		"queries_main_servfail_relayed":                           30,
+		"queries_main_garbage_rejected":                           80,
+		"garbage_rejected:wrongid":                                15,
+		"garbage_rejected:wrongname":                              15,
+		"garbage_rejected:wrongtype":                              15,
+		"garbage_rejected:noquestion":                             10,
+		"garbage_rejected:short":                                  10,
+		"garbage_rejected:wrongname+tc":                           10,
+		"garbage_rejected:wrongtype+tc":                           10,
+		"garbage_rejected:noquestion+tc":                          8,
+		"probe_failures_in_round_with_short_context":              6,
+		"probe_failures_in_round_with_cancel_context":             6,
+		"extra_message:cases_with_3_later_answers":                30,
+		"extra_message:cases_with_3_later_answers:tcp":            8,
+		"extra_message:cases_with_3_later_answers:udp":            3,
+		"flip_phase_refresh_rounds":                               2000,
+		"flip_phase_queries_answered_by_main":                     2000,
+		"flip_phase_queries_answered_by_fallback":                 2000,
+		"pool_bursts_judged":                                      2,
+		"pool_burst_queries_answered_by_main":                     2000,
+		"refreshes_with_production_listener_third_or_later_round": 40,
+		"queries_silent_main_failover_judged":                     100,
+		"queries_silent_main_answered_by_fallback":                60,
+		"backoff_held_after_context_ended_probe":                  8,
+		"queries_failover_after_network_error":                    70,
+		"queries_fallback_no_active_main":                         120,
+		"fallback_also_failed_error":                              40,
+		"queries_main_neterr_no_fallbacks":                        25,
+		"probe_failures":                                          100,
+		"backoff_skips_confirmed":                                 100,
+		"reprobes_after_backoff_elapsed":                          60,
+		"recoveries":                                              30,
+		"queries_answered_by_recovered_main":                      50,
+		"nofallback_main_used_after_failing_during_refresh":       100,
+		"concurrent_phase_queries":                                300,
+		"nofallback_init_down_then_every_main_served":             12,
+		"dead_pooled_tcp:main_failover":                           12,
+		"dead_pooled_tcp:fallback_error":                          8,
+		"dead_pooled_tcp:main_no_fallbacks_error":                 8,
+		"queries_main_truncated_reply_relayed_udp_only":           8,
 	} {
 		r.Require(b, min)
 	}
@@ -3030,4 +3086,88 @@ func poolBurst(r *vkit.Run) {
 			}
 		}()
 	}
+}
+
+// ---------------------------------------------------------------------------
+// watchdog for health-check rounds
+
+var refreshHung atomic.Bool // a stuck round has been seen: later ones are given up sooner
+
+func goroutineID() string {
+	b := make([]byte, 64)
+	b = b[:runtime.Stack(b, false)]
+	f := strings.Fields(string(b))
+	if len(f) >= 2 {
+		return f[1]
+	}
+	return ""
+}
+
+// goroutineBlock returns the block of goroutine id in a dump of all goroutines.
+func goroutineBlock(id string) string {
+	buf := make([]byte, 8<<20)
+	buf = buf[:runtime.Stack(buf, true)]
+	for _, blk := range strings.Split(string(buf), "\n\n") {
+		if strings.HasPrefix(blk, "goroutine "+id+" [") {
+			return blk
+		}
+	}
+	return ""
+}
+
+// refreshWatched runs h.Refresh and reports stuck when it has not returned
+// within 100 upstream timeouts; stack is then the goroutine's stack if (in two
+// dumps half a second apart) it is blocked acquiring a mutex, "" otherwise.
+func refreshWatched(h *forward.Handler, ctx context.Context) (err error, stuck bool, stack string) {
+	type res struct {
+		err error
+		p   any
+	}
+	done := make(chan res, 1)
+	gid := make(chan string, 1)
+	go func() {
+		gid <- goroutineID()
+		defer func() {
+			if p := recover(); p != nil {
+				done <- res{p: p}
+			}
+		}()
+		done <- res{err: h.Refresh(ctx)}
+	}()
+	id := <-gid
+	bound := 100 * upsTimeout
+	if refreshHung.Load() {
+		bound = 10 * upsTimeout
+	}
+	select {
+	case x := <-done:
+		if x.p != nil {
+			panic(x.p)
+		}
+		return x.err, false, ""
+	case <-time.After(bound):
+	}
+	onMutex := func(blk string) bool {
+		head, _, _ := strings.Cut(blk, "\n")
+		return strings.Contains(head, "Mutex.Lock") || strings.Contains(head, "semacquire")
+	}
+	b1 := goroutineBlock(id)
+	select {
+	case x := <-done:
+		if x.p != nil {
+			panic(x.p)
+		}
+		return x.err, false, ""
+	case <-time.After(500 * time.Millisecond):
+	}
+	b2 := goroutineBlock(id)
+	if !onMutex(b1) || !onMutex(b2) || !strings.Contains(b2, "Refresh") {
+		return nil, true, ""
+	}
+	refreshHung.Store(true)
+	lines := strings.Split(b2, "\n")
+	if len(lines) > 24 {
+		lines = lines[:24]
+	}
+	return nil, true, strings.Join(lines, "\n")
 }
